@@ -394,7 +394,10 @@ impl<P: SingleObjectiveProblem> Selection<P> for LinearRank {
         population: &'a [Individual<P>],
         rng: &mut Random,
     ) -> ExecResult<Vec<&'a Individual<P>>> {
-        let weights = f::reverse_rank(population);
+        let ranking = f::reverse_rank(population);
+        let max_rank = ranking.iter().max().cloned().unwrap_or(0);
+        // The best individual has rank 1 and receives the largest weight.
+        let weights: Vec<_> = ranking.iter().map(|rank| max_rank - rank + 1).collect();
         let selection = f::sample_population_weighted(population, &weights, self.num_selected, rng)
             .wrap_err("sampling from population failed")?;
         Ok(selection)
